@@ -169,10 +169,23 @@ func cmdCheck(args []string) int {
 		probesOn = true      // outcome probes at contract calls (notes in the evidence)
 	}
 	ld, err := Load(*repo, filepath.Join(*verif, "contracts/trusted"), nil)
+	var outOfDate []string
+	if err != nil && ld != nil {
+		// every error says that a clause names a field or method the code no longer has? then those clauses are
+		// left out and the rest is checked: a violation found that way is a violation; without one the check ends
+		// BROKEN (the contracts are out of date and nothing can be said)
+		if outOfDate = staleFieldClauses(ld, err.Error()); len(outOfDate) > 0 {
+			for _, k := range outOfDate {
+				droppedClauses[strings.SplitN(k, " ", 2)[0]] = true
+			}
+			ld, err = Load(*repo, filepath.Join(*verif, "contracts/trusted"), nil)
+		}
+	}
 	if err != nil {
 		fmt.Println("BROKEN: cannot load /repo with its contracts:", err)
 		return 2
 	}
+	staleContractClauses = outOfDate
 	tLoad := time.Since(t0).Seconds()
 	eng := NewEngine(ld)
 	eng.configure()
@@ -348,6 +361,12 @@ func (r *Report) finish() int {
 			}
 			if sr.Status == "vacuous" {
 				vacuous = append(vacuous, i)
+				continue
+			}
+			if staleFunc(sr.Name) {
+				// part of this function's contract was left out (it names state the code no longer has): what its
+				// remaining clauses say cannot be trusted either way
+				lines = append(lines, fmt.Sprintf("note: %s fails, but part of the contract of its function was left out as out of date: not counted", sr.Name))
 				continue
 			}
 			if sr.Status == "solver-disagreement" {
@@ -580,6 +599,16 @@ func (r *Report) finish() int {
 	}
 	if len(missing) > 0 {
 		fmt.Printf("note: %d obligation(s) recorded for the unchanged tree were not generated (code moved or call sites removed): %s\n", len(missing), strings.Join(missing, ", "))
+	}
+	if len(staleContractClauses) > 0 {
+		// clauses that name state the code no longer has were left out: what remains was checked
+		for _, k := range staleContractClauses {
+			fmt.Println("note: contract clause left out (out of date): " + k)
+		}
+		if exit == 0 {
+			fmt.Printf("BROKEN: %d contract clause(s) name a field or method that the code no longer has, and nothing that remains fails: the contracts are out of date\n", len(staleContractClauses))
+			exit = 2
+		}
 	}
 	fmt.Printf("%s %s: %d/%d obligations discharged over %d functions, %d violation(s), load %.1fs vcgen %.1fs total %.1fs\n",
 		r.Prop, r.Tier, discharged, total, len(funcs), violations, r.LoadS, r.GenS, wall)
@@ -1096,6 +1125,82 @@ func (eng *Engine) storedFieldsObligations(tag string) []*Obligation {
 				o.StructMsg = "no such type: " + strings.Join(missing, ", ")
 			}
 			out = append(out, o)
+		}
+	}
+	return out
+}
+
+var fieldMissingRe = regexp.MustCompile(`^(\S+zz_verif_spec_gen[^:]*\.go):(\d+):\d+: (\S+) undefined \(type (\S+) has no field or method (\w+)\)`)
+var genFuncRe = regexp.MustCompile(`^func (\w+)\(`)
+
+// staleContractClauses: clauses dropped by the second load (reported at the end of the run).
+var staleContractClauses []string
+
+// staleFunc: the obligation belongs to a function part of whose contract was dropped.
+func staleFunc(oblName string) bool {
+	for _, k := range staleContractClauses {
+		// "file:line KEY#label names ..."
+		f := strings.Fields(k)
+		if len(f) < 2 {
+			continue
+		}
+		key := f[1]
+		if i := strings.Index(key, "#"); i >= 0 {
+			key = key[:i]
+		}
+		if strings.Contains(oblName, key+"#") {
+			return true
+		}
+	}
+	return false
+}
+
+// staleFieldClauses: /repo stopped type-checking with its contracts; when every error says that a clause names a
+// field (or method) which the type no longer has - the code renamed or removed state the clause relies on - the
+// clauses concerned are returned as "contractfile:line what".
+func staleFieldClauses(ld *Loader, errText string) []string {
+	var out []string
+	seen := map[string]bool{}
+	for _, l := range strings.Split(errText, "\n")[1:] {
+		l = strings.TrimSpace(l)
+		if l == "" {
+			continue
+		}
+		m := fieldMissingRe.FindStringSubmatch(l)
+		if m == nil {
+			return nil
+		}
+		found := false
+		for _, ps := range ld.pkgSpecs {
+			src, ok := ps.GenFiles[m[1]]
+			if !ok {
+				continue
+			}
+			lines := strings.Split(string(src), "\n")
+			ln, _ := strconv.Atoi(m[2])
+			if ln < 1 || ln > len(lines) {
+				continue
+			}
+			fm := genFuncRe.FindStringSubmatch(lines[ln-1])
+			if fm == nil {
+				continue
+			}
+			goName := strings.TrimSuffix(strings.TrimSuffix(fm[1], "_cond"), "_var")
+			for _, fs := range ps.Funcs {
+				for _, c := range fs.Clauses {
+					if c.GoName == goName {
+						found = true
+						k := fmt.Sprintf("%s:%d", c.File, c.Line)
+						if !seen[k] {
+							seen[k] = true
+							out = append(out, fmt.Sprintf("%s %s#%s names %s, but type %s has no field or method %s", k, fs.Key, labelOr(c, "clause"), m[3], m[4], m[5]))
+						}
+					}
+				}
+			}
+		}
+		if !found {
+			return nil
 		}
 	}
 	return out
